@@ -434,13 +434,14 @@ func c10Gen(c *Ctx) {
 	LS := c.N(7, 10)
 	wrapInj := func(cp int64) []int64 {
 		k := c10SyncCap(cp)
-		return []int64{-1, 1<<32 - 1, 1<<32 - 2, 1<<32 - k, 1<<32 - k - 1, 1<<33 - 3}
+		// ... and just below 2^31, where a signed reading of the 32-bit counters changes sign
+		return []int64{-1, 1<<32 - 1, 1<<32 - 2, 1<<32 - k, 1<<32 - k - 1, 1<<33 - 3, 1<<31 - 1, 1<<31 - 2, 1<<31 - k, 1<<31 - k - 1}
 	}
 	enumerate("sync-exhaustive", 1, []int64{1, 2, 3, 4, 5, 6, 7, 8, 9}, wrapInj, []op2{{0, 0}, {1, 0}}, LS, c10ObsSync)
 	enumerate("sync-exhaustive-wait", 1, []int64{1, 2, 3, 5}, func(cp int64) []int64 { return []int64{-1, 1<<32 - 2} },
 		[]op2{{0, 0}, {1, 0}, {11, 0}, {12, 0}}, c.N(5, 6), c10ObsSync)
 	c.SetExhaustive()
-	c.Note(fmt.Sprintf("exhaustive part: Ring caps 1..5, all sequences of length <= %d over {Push, Pop, PushWithExpand, Recap(0,1,2,3,4,6), Init(2)} with Len/IsEmpty/IsFull/Cap/Peek after every step and Dump+drain at the end; SyncRing requested caps 1..9, fresh and with counters injected at 2^32-1, 2^32-2, 2^32-cap, 2^32-cap-1, 2^33-3, all Push/Pop sequences of length <= %d with Len/IsEmpty/IsFull after every step and Dump+drain at the end", L, LS))
+	c.Note(fmt.Sprintf("exhaustive part: Ring caps 1..5, all sequences of length <= %d over {Push, Pop, PushWithExpand, Recap(0,1,2,3,4,6), Init(2)} with Len/IsEmpty/IsFull/Cap/Peek after every step and Dump+drain at the end; SyncRing requested caps 1..9, fresh and with counters injected at 2^32-1, 2^32-2, 2^32-cap, 2^32-cap-1, 2^33-3 and 2^31-1, 2^31-2, 2^31-cap, 2^31-cap-1, all Push/Pop sequences of length <= %d with Len/IsEmpty/IsFull after every step and Dump+drain at the end", L, LS))
 
 	// ---------------- 3. panics and the capacity rounding (incl. the known finding F11: requested > 2^31)
 	special := [][]int64{
@@ -484,6 +485,12 @@ func c10Gen(c *Ctx) {
 			m = int64(2 + r.Intn(1000))
 		}
 		inj := m<<32 - k
+		switch r.Intn(8) { // other boundaries of the counters: the sign bit of a signed reading, narrower integer types
+		case 0, 1:
+			inj = (m-1)<<32 + 1<<31 - k
+		case 2:
+			inj = (m-1)<<32 + []int64{1 << 16, 1 << 15, 1 << 8, 1 << 24, 1 << 30}[r.Intn(5)] - k
+		}
 		in := []int64{1, req, inj}
 		n := int(2*k+cp) + r.Intn(8)
 		bias := 30 + r.Intn(50) // percentage of pushes
@@ -695,6 +702,6 @@ func init() {
 	Register(&Prop{ID: "C10", Num: 10, SpecMode: "equal", Gen: c10Gen, Impl: c10Impl,
 		// a requested capacity above 2^24: a wrong rounding can ask the runtime for 2^36 bytes, which kills the process
 		Isolate: func(in []int64) bool { return len(in) >= 2 && in[1] > 1<<24 },
-		Shrink: ShrinkOps(3, 2), Known: c10Known, Describe: c10Describe,
-		Rule: "exhaustive: Ring caps 1..5 x every sequence of mutators (Push, Pop, PushWithExpand, Recap(0,1,2,3,4,6), Init(2)) up to the tier's length with all observers after every step; SyncRing requested caps 1..9 x {fresh, counters injected at 2^32-1, 2^32-2, 2^32-cap, 2^32-cap-1, 2^33-3} x every Push/Pop sequence up to the tier's length; wrap window: counters at 2^32*m-k then 2k+cap random operations; random long sequences (Ring with Recap/PushWithExpand/Init at random rotations, SyncRing with random injected counters); capacity rounding for 2^j-1, 2^j, 2^j+1 (j <= 13) with operations, capacity alone for requests up to 2^26 (2^j +- small, 2^j+2^i, random; rings of empty structs), and requests > 2^31 (known finding F11); honest push/pop pairs against the closed form. distinct = distinct case; non-trivial = at least 3 mutating steps of at least 2 kinds (exhaustive), at least 2-3 operation kinds (random)"})
+		Shrink:  ShrinkOps(3, 2), Known: c10Known, Describe: c10Describe,
+		Rule: "exhaustive: Ring caps 1..5 x every sequence of mutators (Push, Pop, PushWithExpand, Recap(0,1,2,3,4,6), Init(2)) up to the tier's length with all observers after every step; SyncRing requested caps 1..9 x {fresh, counters injected at 2^32-1, 2^32-2, 2^32-cap, 2^32-cap-1, 2^33-3} x every Push/Pop sequence up to the tier's length; wrap window: counters at 2^32*m-k (and at 2^31-k, 2^16-k, 2^15-k, 2^8-k, 2^24-k, 2^30-k above a multiple of 2^32) then 2k+cap random operations; random long sequences (Ring with Recap/PushWithExpand/Init at random rotations, SyncRing with random injected counters); capacity rounding for 2^j-1, 2^j, 2^j+1 (j <= 13) with operations, capacity alone for requests up to 2^26 (2^j +- small, 2^j+2^i, random; rings of empty structs), and requests > 2^31 (known finding F11); honest push/pop pairs against the closed form. distinct = distinct case; non-trivial = at least 3 mutating steps of at least 2 kinds (exhaustive), at least 2-3 operation kinds (random)"})
 }
